@@ -109,6 +109,10 @@ structure W where
   appStartReq : List (Nat × Strategy) := []
   jobCount : Nat := 0             -- number of `ApplicationStartJobs` objects created so far
   stopJobCount : Nat := 0         -- number of `ApplicationStopJobs` objects created so far
+  /-- `StarterModel` (start prediction): the LIVE process table, frozen, while `procs` holds the mock copies the prediction
+      plays with; `none` outside a prediction.  Instance loads are always read from the live processes. -/
+  live : Option (List Proc) := none
+  modelEvents : List (Nat × Nat × PState) := []   -- `StarterModel.event_list`
   now : Nat := 0
   out : List Out := []
   deriving Repr, Inhabited
@@ -132,7 +136,7 @@ def appStopped (a : Nat) : M Bool := do
 /-- SupvisorsInstanceStatus.get_load -/
 def instLoad (w : W) (i : Nat) : Nat :=
   ((List.range w.pcfg.length).filter (fun p =>
-      let x := w.procs.getD p {}
+      let x := (w.live.getD w.procs).getD p {}
       (getInfo x.infos i).isSome ∧ procRunning x ∧ i ∈ x.running)).foldl (fun acc p => acc + (w.pcfg.getD p default).load) 0
 
 def nodeLoad (w : W) (nd : Nat) : Nat :=
@@ -312,10 +316,12 @@ def failCommand (fuel : Nat) (p : Nat) (target : Option Nat) (etime : Nat) (st :
     emit (.force p st target.isNone run)
     if force then
       setProc p { x with forced := some st }
-      -- fsm.on_process_state_event: starter.on_event(process, local identifier)
-      let me := (← get).me
-      starterOnEvent fuel p me
-      stopperOnEvent fuel p me
+      -- `ApplicationStartJobsModel.fail_command` only forces the state of the mock process
+      if (← get).live.isNone then
+        -- fsm.on_process_state_event: starter.on_event(process, local identifier)
+        let me := (← get).me
+        starterOnEvent fuel p me
+        stopperOnEvent fuel p me
 
 /-- ApplicationStartJobs.process_job; returns (queued, updated command) -/
 def processJob (fuel : Nat) (app : Nat) (runId : Nat) (jobCurrent : List Command) (c : Command) : M (Bool × Command) := do
@@ -335,6 +341,14 @@ def processJob (fuel : Nat) (app : Nat) (runId : Nat) (jobCurrent : List Command
       match c.target with
       | some i =>
         emit (.start c.proc i runId c.strategy)
+        if w.live.isSome then
+          -- `ProcessStartCommandModel.start`: the mock process is listed on the instance and the events of a normal start
+          -- are queued (STARTING, RUNNING, then EXITED with wait_exit)
+          modify fun w =>
+            let x := w.procs.getD c.proc {}
+            { w with procs := w.procs.set c.proc { x with running := if x.running.contains i then x.running else x.running ++ [i] },
+                     modelEvents := w.modelEvents ++ [(c.proc, i, PState.starting), (c.proc, i, PState.running)]
+                       ++ (if cfgp.waitExit then [(c.proc, i, PState.exited)] else []) }
         return (true, { c with reqCounter := w.counter.getD i 0 })
       | none =>
         failCommand fuel c.proc none w.now .fatal runId
@@ -578,5 +592,65 @@ def stopperInProgress : M Bool := do
 def starterInProgress : M Bool := do
   let w ← get
   return !w.planned.isEmpty || !w.current.isEmpty
+
+/-- `StarterModel.feed_model`: the queued events are played on the mock processes (`process._state = state`,
+    `info_map[identifier]['state'] = state`, then `on_event`) -/
+def feedModel (fuel : Nat) : Nat → M Unit
+  | 0 => pure ()
+  | n + 1 => do
+    let w ← get
+    match w.modelEvents with
+    | [] => pure ()
+    | (p, i, st) :: rest =>
+      let x := w.procs.getD p {}
+      let infos := match getInfo x.infos i with
+        | some v => setInfo x.infos i { v with state := st }
+        | none => x.infos
+      set { w with modelEvents := rest, procs := w.procs.set p { x with state := st, infos := infos } }
+      starterOnEvent fuel p i
+      feedModel fuel n
+
+/-- the placement: for every process for which a request was emitted, the instance asked -/
+def placements (outs : List Out) : List (Nat × Nat) :=
+  outs.filterMap (fun o => match o with | .start p i _ _ => some (p, i) | _ => none)
+
+/-- `StarterModel.test_start_application`: prediction on mock copies, the world itself is left untouched (the result is a
+    value; nothing of the prediction run survives) -/
+def testStartApplication (w : W) (a : Nat) (strat : Strategy) : List Out :=
+  -- the mock processes are fresh `ProcessStatus` objects: same state and per-instance information, listed nowhere, not forced
+  let w0 : W := { w with live := some w.procs, procs := w.procs.map (fun x => { x with running := [], forced := none }),
+                         planned := [], current := [], splanned := [], scurrent := [], modelEvents := [], out := [] }
+  let (_, w1) := (do startApplication 200 a strat; feedModel 200 400).run w0
+  w1.out
+
+/-- an actual start of the application in which every requested process starts normally: STARTING then RUNNING (then an
+    expected EXITED with wait_exit) reported by the instance asked, in the order requested -/
+def normalStart (fuel : Nat) : Nat → List Out → M Unit
+  | 0, _ => pure ()
+  | n + 1, seen => do
+    let w ← get
+    -- the next start request not yet played
+    match (w.out.drop seen.length).find? (fun o => match o with | .start .. => true | _ => false) with
+    | none => pure ()
+    | some (.start p i _ _) =>
+      let upto := seen.length + ((w.out.drop seen.length).takeWhile (fun o => match o with | .start q j _ _ => !(q == p && j == i) | _ => true)).length + 1
+      let seen' := w.out.take upto
+      let cfgp := w.pcfg.getD p default
+      for st in [PState.starting, PState.running] ++ (if cfgp.waitExit then [PState.exited] else []) do
+        let w ← get
+        let x := w.procs.getD p {}
+        let v : Info := match getInfo x.infos i with
+          | some v => { v with state := st, expected := true, ltime := w.now, etime := w.now, nowm := w.now }
+          | none => { state := st, expected := true, ltime := w.now, etime := w.now, nowm := w.now, disabled := false }
+        setProc p (updateStatusT { x with infos := setInfo x.infos i v, forced := none } i st)
+        starterOnEvent fuel p i
+        stopperOnEvent fuel p i
+      normalStart fuel n seen'
+    | some _ => pure ()
+
+def realStartApplication (w : W) (a : Nat) (strat : Strategy) : List Out :=
+  let w0 : W := { w with out := [] }
+  let (_, w1) := (do startApplication 200 a strat; normalStart 200 100 []).run w0
+  w1.out
 
 end Supv.Cmd
